@@ -387,6 +387,14 @@ fn handle_established(
         }
     }
 
+    // A segment that occupies sequence space (payload, FIN) or carries SYN and was
+    // not accepted is "unacceptable" (RFC 793): answer with an ACK of the current
+    // rcv_nxt so the peer learns what we have. Without this a lost ACK (or a lost
+    // handshake ACK) is never repaired: retransmissions are dropped silently.
+    if !s.payload.is_empty() || s.flags.fin || s.flags.syn {
+        send_ack = true;
+    }
+
     if send_ack {
         let (snd_nxt, rcv_nxt, window) = {
             let tcb = k.lookup(fd).unwrap().tcb.as_ref().unwrap();
